@@ -57,6 +57,8 @@ LEVEL = "exploration"
 TECHNIQUE = ("deterministic simulation: two real AMP peers over a simulated link, seeded call/answer interleaving, "
              "disconnects at byte boundaries; wire-level reference model compared after every step")
 QUICK_RUNS = 24000
+TWIN_P = 0.08   # this share of the runs drives two independent instances of the scenario one after the other (detsim.runner._run_scenario)
+USES_DEPTH = True   # thorough tier: history length bound scales with sim.depth (1..3) beyond the quick tier\'s run indices
 BATCH = 100
 RUN_WALL_LIMIT_S = 120   # runs take milliseconds; generous so that an overloaded host is not mistaken for a hang
 COMPONENTS = {"real": ["twisted.protocols.amp.AMP (BoxDispatcher, BinaryBoxProtocol, CommandLocator, Command)",
@@ -319,7 +321,7 @@ class Harness:
 
 
 def run(sim):
-    nops = sim.draw_int(8, 60, "nops")
+    nops = sim.draw_int(8, 60 * sim.depth, "nops")
     fault_rate = sim.draw_choice([0, 1, 2], "fault_rate")
     reent = sim.draw_choice([0.0, 0.0, 0.25], "reentrancy")
     sw_side = sim.draw_choice(["", "", "", "", "", "", "", "A", "B"], "switch_side")
@@ -505,7 +507,7 @@ def run(sim):
     # ------------------------------------------------------------------ schedule
     after = 0
     for opi in range(nops):
-        sim.step(400)
+        sim.step(400 * sim.depth)
         both_lost = h.lost["A"] is not None and h.lost["B"] is not None
         live = not both_lost
         if both_lost:
